@@ -28,7 +28,8 @@ fn rand_print_cmd(rng: &mut Rng) -> ScriptLine {
         }
         _ => PrintWhat::Range(5 + rng.below(100) as u32, rng.below(5) as u32), // backwards
     };
-    ScriptLine::print(what, rng.chance(1, 4))
+    let radix = *rng.pick(&[Radix::Dec, Radix::Dec, Radix::Hex, Radix::Bin]);
+    ScriptLine::print_radix(what, rng.chance(1, 4), radix)
 }
 
 /// a prompt script: mostly next, some prints and garbage, optionally cut short or ended by quit
